@@ -26,7 +26,7 @@ FRI_CLOSE = 18264 * 1440 + 1260
 MON_OPEN = 18267 * 1440 + 870
 MON_CLOSE = 18267 * 1440 + 1260
 TUE_OPEN = 18268 * 1440 + 870
-PRICES = ["0.25", "3", "7.75", "12.5", "40", "100"]
+PRICES = ["3", "7.75", "12.5", "40", "100"]     # (no penny prices: positions of 10^5 shares overflow TLC's integers)
 
 
 def rat(x):
@@ -158,11 +158,20 @@ def case_tla(c):
 
 
 def tlc_eval(w, cases, rep, label):
+    """TLC on the cases; cases whose arithmetic leaves TLC's 32-bit integers are isolated and answered None."""
+    def skip(_c):
+        rep.cov["skipped_overflow"] = rep.cov.get("skipped_overflow", 0) + 1
+    return tlc.eval_with_bisect(lambda items: _tlc_eval(w, items, rep, label), cases, skip)
+
+
+def _tlc_eval(w, cases, rep, label):
     with open(os.path.join(w, "PcmCases.tla"), "w") as fh:
         fh.write("---- MODULE PcmCases ----\nEXTENDS Integers, TLC\nCases == <<\n%s\n>>\n====\n" % ",\n".join(case_tla(c) for c in cases))
     with open(os.path.join(w, "p.cfg"), "w") as fh:
         fh.write("SPECIFICATION Spec\nINVARIANT Sound\nCHECK_DEADLOCK FALSE\n")
     r = tlc.run(w, "MC_Pcm", "p.cfg", workers=16, timeout=3000)
+    if r.violated == "evaluation-error" and "Overflow" in r.out:
+        raise tlc.Overflow()
     rep.add_mc(r, label)
     if not r.ok:
         raise tlc.TLCError("PcmSound violated on a supplied case (spec error): %s" % (r.trace[-1:],))
@@ -245,6 +254,8 @@ def run(prop, replay_file=None):
                 break
             for sc, case, exp in zip(scs, cases, exps):
                 res = sc.rebalance(dt, nxt)
+                if exp is None:
+                    continue
                 rep.cov["evaluations"] += 1
                 heldset = set(case["held"])
                 if heldset - set(case["uni"]) and heldset - set(case["alpha"]) and not exp[0]:
